@@ -22,7 +22,7 @@ def run(ctx):
         ctx.escalated = True
     step_diff(ctx, "vh-core", "ivset", "interval_set", tier_n(ctx, 60000, 600000))
     import gen.interval_set as g
-    if ctx.tier == "thorough" or ctx.escalated:
+    if ctx.tier == "thorough" or ctx.deep:
         ctx.exhaustive = True
         sizes = {str(l): g.closure(l, list(range(10)))[1] for l in (None, 1, 2, 3, 5)}
         ctx.extra["exhaustive_ivset"] = {
